@@ -281,8 +281,9 @@ fn t_chrono_datetime_to_instant_real() {
 #[kani::solver(z3)] // OPTIONAL TIMEOUT=75 (quick tier: counterexample finder with a 75 s budget; thorough: full timeout)
 fn t_chrono_instant_to_datetime_real() {
     let (s, ns): (u64, u32) = (kani::any(), kani::any());
-    kani::assume(ns < 1_000_000_000);
+    // every (seconds, nanos) pair: the derived Deserialize builds Instants that Instant::new refuses
     if let Ok(dt) = DateTime::<Utc>::try_from(Instant { seconds: s, nanos: ns }) {
+        assert!(ns < 1_000_000_000, "C19/chrono-real/Instant->DateTime/an-invalid-sub-second-part-is-rejected-explicitly");
         assert!(s <= i64::MAX as u64 && dt.timestamp() == s as i64 && dt.timestamp_subsec_nanos() == ns, "C19/chrono-real/Instant->DateTime/exact-or-rejected");
     }
     kani::cover!(true, "C19/chrono-real/Instant->DateTime/reached");
